@@ -333,6 +333,7 @@ func main() {
 				chunk    int
 				onReq    bool
 				onResp   bool
+				wrap     bool // Dialer.WrapConn set: a wrapper that transforms the byte stream
 			}
 			var cases []dcase
 			for _, cb := range []int{16, 64, 0} {
@@ -346,7 +347,10 @@ func main() {
 							{cBuf: cb, sProto: "fail"},
 						} {
 							for _, cbs := range [][2]bool{{true, true}, {true, false}, {false, true}} {
-								cases = append(cases, dcase{cfg, tr, ch, cbs[0], cbs[1]})
+								cases = append(cases, dcase{cfg, tr, ch, cbs[0], cbs[1], false})
+								if ch != 1 {
+									cases = append(cases, dcase{cfg, tr, ch, cbs[0], cbs[1], true})
+								}
 							}
 						}
 					}
@@ -355,7 +359,7 @@ func main() {
 			t.Par(len(cases), func(i int) {
 				dc := cases[i]
 				t.Do(func() string {
-					return fmt.Sprintf("DebugDialer %s trailing=%d chunk=%d onRequest=%v onResponse=%v", dc.p, dc.trailing, dc.chunk, dc.onReq, dc.onResp)
+					return fmt.Sprintf("DebugDialer %s trailing=%d chunk=%d onRequest=%v onResponse=%v wrapConn=%v", dc.p, dc.trailing, dc.chunk, dc.onReq, dc.onResp, dc.wrap)
 				}, func() *explore.Fail {
 					trailing := make([]byte, dc.trailing)
 					for j := range trailing {
@@ -365,6 +369,9 @@ func main() {
 						var req, resp []byte
 						lc := &hs.LazyConn{Policy: env.FixedChunk(dc.chunk)}
 						lc.Respond = func(rq []byte) []byte {
+							if dc.wrap {
+								rq = xorBytes(rq) // the wire carries what the user's wrapper made of it
+							}
 							req = append([]byte{}, rq...)
 							var out bytes.Buffer
 							if dc.p.sProto == "fail" {
@@ -390,6 +397,9 @@ func main() {
 							}
 							resp = append([]byte{}, out.Bytes()...)
 							out.Write(trailing)
+							if dc.wrap {
+								return xorBytes(out.Bytes())
+							}
 							return out.Bytes()
 						}
 						return &lazyNetConn{LazyConn: lc}, &req, &resp
@@ -398,11 +408,17 @@ func main() {
 					pconn, _, _ := mk()
 					pd := dc.p.dialer()
 					pd.NetDial = func(ctx context.Context, n, a string) (net.Conn, error) { return pconn, nil }
-					_, pbr, phs, perr := pd.Dial(context.Background(), "ws://example.com/chat")
+					if dc.wrap {
+						pd.WrapConn = func(c net.Conn) net.Conn { return &xorConn{c} }
+					}
+					pc, pbr, phs, perr := pd.Dial(context.Background(), "ws://example.com/chat")
 					// debug dialer
 					dconn, dreq, dresp := mk()
 					dd := wsutil.DebugDialer{Dialer: dc.p.dialer()}
 					dd.Dialer.NetDial = func(ctx context.Context, n, a string) (net.Conn, error) { return dconn, nil }
+					if dc.wrap {
+						dd.Dialer.WrapConn = func(c net.Conn) net.Conn { return &xorConn{c} }
+					}
 					var gotReq, gotResp []byte
 					if dc.onReq {
 						dd.OnRequest = func(b []byte) { gotReq = append([]byte{}, b...) }
@@ -424,6 +440,14 @@ func main() {
 					if dc.onResp && !bytes.Equal(gotResp, *dresp) {
 						return explore.Failf("OnResponse-bytes:"+cls, "got %q\nwant %q", gotResp, *dresp)
 					}
+					if derr == nil && dc.wrap {
+						if _, ok := pc.(*xorConn); !ok {
+							return explore.Failf("plain-dialer-returns-unwrapped-conn", "%T", pc)
+						}
+						if _, ok := conn.(*xorConn); !ok {
+							return explore.Failf("debug-dialer-returns-unwrapped-conn", "plain dialer returns %T, debug dialer %T", pc, conn)
+						}
+					}
 					if derr == nil {
 						var rd io.Reader = conn
 						if br != nil {
@@ -433,7 +457,7 @@ func main() {
 						if !bytes.Equal(rest, trailing) {
 							return explore.Failf("debug-loses-post-handshake-bytes", "sent %d trailing bytes, reader+conn yield %d (%x)", len(trailing), len(rest), rest)
 						}
-						var prd io.Reader = pconn
+						var prd io.Reader = pc
 						if pbr != nil {
 							prd = pbr
 						}
@@ -517,6 +541,27 @@ func main() {
 		})
 	})
 }
+
+// xorConn is a user WrapConn layer that transforms the byte stream in both directions.
+type xorConn struct{ net.Conn }
+
+func xorBytes(p []byte) []byte {
+	q := make([]byte, len(p))
+	for i, b := range p {
+		q[i] = b ^ 0x5a
+	}
+	return q
+}
+
+func (x *xorConn) Read(p []byte) (int, error) {
+	n, err := x.Conn.Read(p)
+	for i := 0; i < n; i++ {
+		p[i] ^= 0x5a
+	}
+	return n, err
+}
+
+func (x *xorConn) Write(p []byte) (int, error) { return x.Conn.Write(xorBytes(p)) }
 
 // twoPeersX is twoPeers with support for the "lenN" header variants of E2.
 func twoPeersX(p pair, cpol, spol func(max, off int) int, con, son func(p []byte, off int)) (cHs, sHs ws.Handshake, cErr, sErr error, req, resp []byte) {
